@@ -8,7 +8,7 @@ import time
 import weave
 
 VERIF = os.path.dirname(os.path.dirname(os.path.abspath(__file__)))
-BUILD = os.path.join(VERIF, ".build")
+BUILD = os.environ.get("VERIF_BUILD", os.path.join(VERIF, ".build"))
 
 # Messages that mean "an obligation could not be discharged" (as opposed to compile / mode /
 # unsupported-feature errors, which make the unit UNDECIDED).
